@@ -122,6 +122,35 @@ Definition check (fx : fixes) (c : case) : verdict :=
      v_guards := guards [(1%Z, g_F1 c); (2%Z, g_F2 c && negb (fx2 fx)); (3%Z, g_F3 c && negb (fx3 fx));
                          (4%Z, g_F4 c); (5%Z, g_F5 c)] |}.
 
+(** * requests through the Envoy entry point *)
+
+Definition corr1_envoy (fx : fixes) (c : case) (raw : string) (o : outcome) (uri : string) : bool :=
+  let m := serve_envoy fx (c_rules c) (c_dflt c) (c_host c) raw (c_query c) in
+  outcome_eqb m o &&
+  match m with
+  | Accepted _ _ _ (Some u) => String.eqb (wire_uri u) uri
+  | _ => true
+  end.
+
+(** the same predicates; captured values are only specified for well-formed paths
+    (a malformed escape reaches heimdall only through Envoy: the value is then "") *)
+Definition prop_envoy (c : case) : bool :=
+  (negb (equiv_paths (c_raw c) (c_raw2 c)) || same_decision (o_a c) (o_b c)) &&
+  off_ok (c_rules c) (c_raw c) (o_a c) && off_ok (c_rules c) (c_raw2 c) (o_b c) &&
+  (negb (wellformed (c_raw c)) || caps_ok (c_rules c) (c_raw c) (o_a c)) &&
+  (negb (wellformed (c_raw2 c)) || caps_ok (c_rules c) (c_raw2 c) (o_b c)) &&
+  (negb (wellformed (c_raw c)) || up_ok (c_rules c) (c_raw c) (c_query c) (o_a c) (o_auri c)) &&
+  (negb (wellformed (c_raw2 c)) || up_ok (c_rules c) (c_raw2 c) (c_query c) (o_b c) (o_buri c)).
+
+Definition g_F3_envoy (c : case) : bool :=
+  guard_F3 (c_rules c) && (mem_ascii "%" (c_raw c) || mem_ascii "%" (c_raw2 c)).
+
+Definition check_envoy (fx : fixes) (c : case) : verdict :=
+  {| v_corr := corr1_envoy fx c (c_raw c) (o_a c) (o_auri c) && corr1_envoy fx c (c_raw2 c) (o_b c) (o_buri c);
+     v_prop := prop_envoy c;
+     v_guards := guards [(1%Z, g_F1 c); (2%Z, g_F2 c && negb (fx2 fx)); (3%Z, g_F3_envoy c && negb (fx3 fx));
+                         (4%Z, g_F4 c); (5%Z, g_F5 c)] |}.
+
 (** * units: rule_impl.go unescape *)
 
 Record ucase := { uc_v : string; uo_off : string; uo_nodecode : string; uo_on : string }.
